@@ -82,6 +82,7 @@ func init() {
 		Rule: "closed loop: real coordinator + real sidecars over loopback HTTP + simulated Prometheus per shard (re-reads the generated file, scrapes through the proxy, head series with 0 or 3 rounds of residue) + simulated StatefulSet (new pods ready after 0-2 cycles, volume kept or not) + target farm; " +
 			"case = world (head limit on/off, min 0-2, max 8, idle time 0 / 1 ns / 1000 h, 2-8 targets of sizes {1..120} some oversized or unknown to the explorer, 1-3 initial shards, initial placement empty / sane / all-on-one with duplicates / pending transfers written into the stores) + a perturbed phase of 4-11 cycles with growth below the limits, targets added and removed and 0-4 scrape rounds per shard between cycles, then a quiet phase; " +
 			"bounded restatement: within B = 10 + 4*T + 3*min(max,8) quiet cycles (3 scrape rounds on every shard after each) a cycle exists after which every healthy fitting target is listed by exactly one sidecar in normal state, nothing is in transfer, no oversized target is listed, and sidecar lists and requested scale stay identical for 5 further cycles; per cycle: all shards in sync + eligible target unplaced => last requested scale > current (below max); " +
+			"a fitting target may stay unscraped in the judged state only if max-shard is reached and no shard has room for it next to what it holds (the property presupposes enough allowed shards; counted); one workload in six drains all targets early and refills late; " +
 			"non-trivial = world with >= 2 shards at some time and >= 1 move or scale event; distinct = hash of the scenario",
 		Assumptions: []string{
 			"targets whose size equals a limit exactly (they fit nowhere yet are not 'larger than the limit') and initial placements of oversized targets are not generated",
